@@ -1,7 +1,9 @@
 (* C06 model, fixed-length part.
-   - go-corelib ios.ByteReadLine (bufio.Reader.ReadLine joined over buffer-full pieces): the
-     text up to the next LF, without the LF and without a CR directly before it; nil at EOF.
-     Modelled as a function of the unread input (chunk independence is C09's subject).
+   - go-corelib ios.ByteReadLine over bufio.Reader.ReadLine with its 4096-byte buffer: the text up
+     to the next LF, without the LF and without a CR directly before it, joined over buffer-full
+     fragments; an unterminated last line that ends exactly at a fragment boundary is lost
+     (ByteReadLine returns (nil, io.EOF)): transcribed as is.  Modelled as a function of the
+     unread input (independence of the source's chunking is C09's subject).
    - ColumnDecl.lineToColumnValue of both fixed-length packages (the two loops over
      utf8.DecodeRune, Base/Utf8.v).
    - fileformat/fixedlength/reader.go (old reader: by_rows and by_header_footer envelopes).
@@ -16,14 +18,53 @@ From Coq.Strings Require Import Byte.
 Import ListNotations.
 From OV Require Import Base.Bytes Base.Utf8 Base.Cases Base.Tree Model.Csv.
 
-(* ios.ByteReadLine: None = io.EOF; Some (line, rest) *)
-Definition read_line (s : bytes) : option (bytes * bytes) :=
+(* bufio.Reader.ReadLine over the unread text T with a buffer of BUFSZ bytes (bufio's default; the
+   fixed-length readers' bufio.NewReader returns the 4096-byte reader ios.StripBOM created).  The
+   source is assumed never to return data together with io.EOF (bytes/strings.Reader, files).
+   RLine: a line end (more = false); RFrag: the buffer filled up without LF (more = true) - a CR
+   at the end of the fragment is put back; REof: io.EOF. *)
+Definition BUFSZ : nat := 4096.
+Inductive rl := RLine (l rest : bytes) | RFrag (l rest : bytes) | REof.
+
+Definition buf_readline (T : bytes) : rl :=
+  match T with
+  | [] => REof
+  | _ =>
+      let w := firstn BUFSZ T in
+      let '(x, y) := split_lf w in
+      match y with
+      | Some _ => RLine (strip_last CR x) (skipn (S (length x)) T)
+      | None =>
+          if length w <? BUFSZ then RLine w []
+          else if Nat.eqb (length (strip_last CR w)) (length w) then RFrag w (skipn BUFSZ T)
+          else RFrag (strip_last CR w) (skipn (BUFSZ - 1) T)
+      end
+  end.
+
+(* ios.ByteReadLine: ReadLine until more = false, joining the fragments; an error from any
+   ReadLine call - also io.EOF after a fragment - returns (nil, err) and drops the fragments. *)
+Inductive rlres := RLOk (line rest : bytes) | RLEof | RLFuel.
+
+Fixpoint byte_read_line (fuel : nat) (acc : bytes) (T : bytes) : rlres :=
+  match fuel with
+  | O => RLFuel
+  | S k => match buf_readline T with
+           | REof => RLEof
+           | RLine l rest => RLOk (acc ++ l) rest
+           | RFrag l rest => byte_read_line k (acc ++ l) rest
+           end
+  end.
+
+Definition read_line (s : bytes) : rlres := byte_read_line (S (length s)) [] s.
+
+(* what a line reader without a buffer limit returns *)
+Definition ideal_read_line (s : bytes) : rlres :=
   match s with
-  | [] => None
+  | [] => RLEof
   | _ => let '(x, y) := split_lf s in
          match y with
-         | Some r => Some (strip_last CR x, r)
-         | None => Some (x, [])
+         | Some r => RLOk (strip_last CR x) r
+         | None => RLOk x []
          end
   end.
 
@@ -78,11 +119,12 @@ Section Fixed1.
     match fuel with
     | O => None
     | S k => match read_line inp with
-             | None => Some (None, inp)
-             | Some (l, rest) => match l with
-                                 | [] => f1_readline k rest
-                                 | _ => Some (Some l, rest)
-                                 end
+             | RLFuel => None
+             | RLEof => Some (None, inp)
+             | RLOk l rest => match l with
+                              | [] => f1_readline k rest
+                              | _ => Some (Some l, rest)
+                              end
              end
     end.
 
@@ -230,11 +272,12 @@ Section Fixed2.
     match fuel with
     | O => None
     | S k => match read_line inp with
-             | None => Some (None, inp, S gen)
-             | Some (l, rest) => match l with
-                                 | [] => f2_fetch k rest (S gen)
-                                 | _ => Some (Some l, rest, S gen)
-                                 end
+             | RLFuel => None
+             | RLEof => Some (None, inp, S gen)
+             | RLOk l rest => match l with
+                              | [] => f2_fetch k rest (S gen)
+                              | _ => Some (Some l, rest, S gen)
+                              end
              end
     end.
 
